@@ -237,7 +237,8 @@ def compute_reference(req):
     fn = O.ALL_QUERIES[op][0] if op in O.ALL_QUERIES else O.RAISERS[op]
     FS.install()
     os.makedirs(os.path.join(refdir, "sub"), exist_ok=True)  # inside the run's private tmpfs directory
-    return outcome(fn, Crystal(uc, sg, asym, titl=titl), A, {"dir": refdir, "box": box}, O.READERS.get(op))
+    return outcome(fn, Crystal(uc, sg, asym, titl=titl), A,
+                   {"dir": refdir, "box": box, "cif_text": box.pop("__cif_text__", False)}, O.READERS.get(op))
 
 
 class Sim:
@@ -270,6 +271,9 @@ class Sim:
         self.kw = [False]  # "keyword" crystals: see ops.KW_QUERIES
         self.held = [[]]  # answers handed out under deferred inspection
         self.box = [{}]  # objects the handle's caller keeps and passes back in (e.g. a molecule)
+        # was the handle born with stored CIF data (then its CIF text legitimately carries extra items)?
+        self.cif_loaded = ["cif_data" in self.world[0].properties]
+        self.cif_group = [None]  # handles that share one stored CIF dictionary by the caller's doing
         self.repeat = [{}]
         self.last_mut = [None]
         self.last_raise = [None]
@@ -286,7 +290,7 @@ class Sim:
     def _ctx(self, hi):
         """Where this handle's caller works and what objects the caller holds."""
         d = FS.dir("shared") if self.A.get("shared_dir") else FS.dir("h%d" % hi)
-        return {"dir": d, "box": self.box[hi]}
+        return {"dir": d, "box": self.box[hi], "cif_text": not self.cif_loaded[hi]}
 
     def _ref_box(self, hi):
         """The reference's caller holds equal objects rebuilt by value (never
@@ -330,7 +334,8 @@ class Sim:
                 raise HarnessError(str(e))
         # a directory of its own per reference query: a cache keyed by file
         # name must not be able to serve the reference an older file
-        return outcome(fn, Crystal(uc, sg, asym, titl=titl), self.A, {"dir": FS.dir("ref", str(self.n_steps)), "box": box},
+        return outcome(fn, Crystal(uc, sg, asym, titl=titl), self.A,
+                       {"dir": FS.dir("ref", str(self.n_steps)), "box": box, "cif_text": box.pop("__cif_text__", False)},
                        O.READERS.get(op))
 
     # ----------------------------------------------------------------- logging
@@ -387,7 +392,7 @@ class Sim:
             fb["raised"] = a[1] if a[0] == "raised" else None
         elif op in O.MUTATORS:
             self._mutate(i, hi, op, fb, inject=st.get("inject"), thread=int(st.get("thread") or 0))
-        elif op in O.FORKS or op in ("reload", "stranger", "stranger_kw", "other"):
+        elif op in O.FORKS or op in ("reload", "stranger", "stranger_kw", "other", "sibling", "derive_cifdata"):
             self._fork(i, hi, op)
         elif op in O.DERIVES:
             self._derive(i, hi, op)
@@ -402,17 +407,26 @@ class Sim:
         fb["new_memo"] = hi < len(self.world) and memo_mask(self.world[hi]) != before_mask
         return fb
 
+    def _props_digest(self, j, hi):
+        o = self.world[j]
+        if hi is not None and self.cif_group[j] is not None and self.cif_group[j] == self.cif_group[hi]:
+            # the caller made these two crystals share one CIF dictionary: an
+            # export of either legitimately refreshes it
+            return digest(norm({k: v for k, v in o.properties.items() if k != "cif_data"}))
+        return _cif_digest(o)
+
     def _others(self, hi):
         out = []
         for j, o in enumerate(self.world):
             if j != hi:
-                out.append((j, state_digest(o), (memo_digest(o) + _cif_digest(o)) if self.deep_fork_check else ""))
+                out.append((j, state_digest(o), (memo_digest(o) + self._props_digest(j, hi)) if self.deep_fork_check else ""))
+        self._acting = hi
         return out
 
     def _check_others(self, i, hi, op, others):
         for j, sd, md in others:
             o = self.world[j]
-            if state_digest(o) != sd or (self.deep_fork_check and memo_digest(o) + _cif_digest(o) != md):
+            if state_digest(o) != sd or (self.deep_fork_check and memo_digest(o) + self._props_digest(j, hi) != md):
                 raise Violation(
                     "FORK_INTERFERENCE", i, op, hi,
                     {"other_handle": j, "what": "state" if state_digest(o) != sd else "memo or stored cif_data"},
@@ -468,7 +482,7 @@ class Sim:
         # the reference is built from the state *before* the call
         # (the name is the one the handle had when it entered the world: no
         # operation of the API renames a crystal)
-        pre = rebuild_state(h, self.stats) + (self.titl0[hi], self._ref_box(hi))
+        pre = rebuild_state(h, self.stats) + (self.titl0[hi], dict(self._ref_box(hi), __cif_text__=not self.cif_loaded[hi]))
         if defer and not inject:
             held = self._call_and_hold(i, hi, op, fn, pre, S, mask, others, thread)
             if held is not None:
@@ -590,6 +604,8 @@ class Sim:
                 self.kw.append(False)
                 self.held.append([])
                 self.box.append({})
+                self.cif_loaded.append("cif_data" in new.properties)
+                self.cif_group.append(None)
                 self.repeat.append({})
                 self.last_mut.append(None)
                 self.last_raise.append(None)
@@ -622,6 +638,8 @@ class Sim:
                 self.kw.append(False)
                 self.held.append([])
                 self.box.append({})
+                self.cif_loaded.append("cif_data" in new.properties)
+                self.cif_group.append(None)
                 self.repeat.append({})
                 self.last_mut.append(None)
                 self.last_raise.append(None)
@@ -629,6 +647,59 @@ class Sim:
                 self.stats["fork:other"] += 1
                 self._log(i, hi, op, "-> h%d" % (len(self.world) - 1))
                 self._check_others(i, hi, op, others)
+                return
+            if op == "sibling":
+                # the caller builds another crystal on the SAME UnitCell and
+                # SpaceGroup objects (legal use of the public constructor),
+                # with an asymmetric unit of its own
+                from chmpy.crystal import AsymmetricUnit
+
+                au0 = h.asymmetric_unit
+                au = AsymmetricUnit(
+                    list(au0.elements),
+                    np.array(au0.positions, dtype=float) + np.array([0.0211, 0.0057, -0.0143]),
+                    labels=np.array(au0.labels, copy=True),
+                    **{k: _clone(v) for k, v in au0.properties.items()},
+                )
+                new = Crystal(h.unit_cell, h.space_group, au, titl=h.titl)
+                self.world.append(new)
+                self.titl0.append(new.titl)
+                self.kw.append(False)
+                self.held.append([])
+                self.box.append({})
+                self.cif_loaded.append(False)
+                self.cif_group.append(None)
+                self.repeat.append({})
+                self.last_mut.append(None)
+                self.last_raise.append(None)
+                self.armed.append(False)
+                self.stats["fork:sibling"] += 1
+                self._log(i, hi, op, "-> h%d" % (len(self.world) - 1))
+                self._check_others(i, hi, op, others)
+                return
+            if op == "derive_cifdata":
+                # the caller feeds one crystal's CIF dictionary to the reader
+                # again: both crystals now hold the same dictionary object
+                if "cif_data" not in h.properties:
+                    self._log(i, hi, op, "skipped")
+                    return
+                (name, data), = h.to_cif_data().items()
+                new = Crystal.from_cif_data(data, titl=name)
+                group = self.cif_group[hi] if self.cif_group[hi] is not None else i
+                self.cif_group[hi] = group
+                self.world.append(new)
+                self.titl0.append(new.titl)
+                self.kw.append(False)
+                self.held.append([])
+                self.box.append({})
+                self.cif_loaded.append(True)
+                self.cif_group.append(group)
+                self.repeat.append({})
+                self.last_mut.append(None)
+                self.last_raise.append(None)
+                self.armed.append(False)
+                self.stats["fork:derive_cifdata"] += 1
+                self._log(i, hi, op, "-> h%d" % (len(self.world) - 1))
                 return
             if op in ("stranger", "stranger_kw"):
                 # a different crystal that looks alike: same group, elements,
@@ -643,6 +714,8 @@ class Sim:
                 self.kw.append(op == "stranger_kw")
                 self.held.append([])
                 self.box.append({})
+                self.cif_loaded.append("cif_data" in new.properties)
+                self.cif_group.append(None)
                 self.repeat.append({})
                 self.last_mut.append(None)
                 self.last_raise.append(None)
@@ -666,6 +739,8 @@ class Sim:
         self.kw.append(self.kw[hi])
         self.held.append([])
         self.box.append(dict(self.box[hi]))  # the caller passes the SAME kept objects to the copy
+        self.cif_loaded.append(self.cif_loaded[hi])
+        self.cif_group.append(None)
         self.repeat.append(dict(self.repeat[hi]))
         self.last_mut.append(self.last_mut[hi])
         self.last_raise.append(self.last_raise[hi])
@@ -686,7 +761,8 @@ class Sim:
             self._log(i, hi, "drop", "skipped")
             return
         others = [(j, sd, md) for j, sd, md in self._others(len(self.world) - 1)]
-        for lst in (self.world, self.titl0, self.kw, self.held, self.box, self.repeat, self.last_mut, self.last_raise, self.armed):
+        for lst in (self.world, self.titl0, self.kw, self.held, self.box, self.cif_loaded, self.cif_group,
+                    self.repeat, self.last_mut, self.last_raise, self.armed):
             lst.pop()
         gc.collect()
         self.stats["fork:drop"] += 1
@@ -727,6 +803,8 @@ class Sim:
         self.kw.append(False)
         self.held.append([])
         self.box.append({})
+        self.cif_loaded.append("cif_data" in new.properties)
+        self.cif_group.append(None)
         self.repeat.append({})
         self.last_mut.append(None)
         self.last_raise.append(None)
